@@ -17,8 +17,11 @@ SPEC = {
         "outputs (destination, requested PGN)",
         "uninitialised memory (LastMessageTime of a new entry, fresh malloc blocks, the local tProductInformation) is an "
         "arbitrary environment value in the theorems; in the differential run it is what ASan's allocator writes (0xbe)",
-        "tProductInformation::IsSame (memcmp over the struct) is modelled as equality of the numeric fields and the four C "
-        "strings; the two differ only on bytes behind a terminator in the uninitialised local buffer of a truncated 126996",
+        "the model compares product information FIELD-WISE (ProdInfo record: four numbers and the four C strings), while "
+        "tProductInformation::IsSame is a memcmp over the whole struct and HandleProductInformation never clears its local "
+        "copy: on a truncated 126996 the library compares uninitialised bytes behind the terminators of that local buffer "
+        "(may raise list-updated although nothing reported changes; not visible to an oracle written from the statement). The "
+        "generator therefore re-sends only complete 126996 messages, for which both comparisons agree",
     ],
     'assumptions': ["0 <= DataLen <= 223, payload bytes < 256", "LP64: unsigned long is 64 bit; N2kMillis() is 32 bit",
                     "messages from sources >= 254 are ignored by the list and carry no requirement",
